@@ -45,6 +45,8 @@ INITIALS = {
     "w_i4_g4": ("w", "qint4", (4, 8), "float32", (0, 4)),
     "w_i2_ax0": ("w", "qint2", (3, 8), "float16", (0, None)),
     "w_i4_axm1": ("w", "qint4", (8, 3), "float32", (-1, None)),
+    # the last axis given as a positive index to the symmetric quantizer (must be canonicalised to -1)
+    "w_i8_axpos": ("sym", "qint8", (4, 6), "float32", 1),
 }
 
 
@@ -58,6 +60,13 @@ def make_initial(name):
         # scale chosen so that some elements saturate at both ends (codes +127 / -128 for int8)
         scale = torch.tensor(1.0 / num.float8.QMAX[qname], dtype=dt)
         return quantize_activation(x, num.qt(qname), scale)
+    if kind == "sym":
+        from optimum.quanto.tensor.quantizers import SymmetricQuantizer
+
+        shp = [1] * len(shape)
+        shp[extra] = shape[extra]
+        scale = (0.004 * (1 + torch.arange(shape[extra], dtype=torch.float64))).to(dt).reshape(shp)
+        return SymmetricQuantizer.apply(x, num.qt(qname), extra, scale)
     axis, gs = extra
     if gs is not None:
         return quantize_weight(x, num.qt(qname), axis, gs)
@@ -263,7 +272,14 @@ def partner(q, kind):
         if kind == "diffscale":
             src = torch.roll(tw.contiguous().flatten(), 2).reshape(tw.shape) * 0.75
             return quantize_activation(src, q.qtype, (q._scale * 1.5).to(q._scale.dtype))
-    if kind in ("same", "diffscale"):
+    if isinstance(q, QBytesTensor) and kind == "otherdtype":
+        # same codes, scale stored in another float dtype
+        odt = torch.float16 if q.dtype == torch.float32 else torch.float32
+        return QBytesTensor(q.qtype, q.axis, q._data.size(), q._data.stride(), q._data.clone(), q._scale.to(odt))
+    if isinstance(q, QBytesTensor) and kind == "pertensor" and q.axis is not None:
+        sc = q._scale.flatten()[0].clone()
+        return QBytesTensor(q.qtype, None, q._data.size(), q._data.stride(), torch.roll(q._data.flatten(), 1).reshape(q._data.shape).contiguous(), sc)
+    if kind in ("same", "diffscale", "otherdtype", "pertensor"):
         return None
     raise ValueError(kind)
 
@@ -344,6 +360,11 @@ def events(q, tier="quick"):
             ev.append(("copy_into_q", pk))
         ev.append(("add", pk))
         ev.append(("equal", pk))
+    if isbytes:
+        ev.append(("copy_into_q", "otherdtype"))
+        ev.append(("copy_into_q", "pertensor"))
+    for c in ("2.0", "0.5"):
+        ev += [("idiv", c), ("imul", c)]
     ev += [("cat3", 0), ("stack3", 0), ("copy_into_plain",)]
     if isbytes:
         # in-place update through an alias covering the whole tensor, then observe the base
@@ -379,7 +400,7 @@ def events(q, tier="quick"):
     return ev
 
 
-MUTATING = {"copy_into_q", "alias_copy"}
+MUTATING = {"copy_into_q", "alias_copy", "idiv", "imul"}
 
 
 def _scalar(c, dtype):
@@ -471,7 +492,7 @@ def build_call(q, ev):
         if name == "equal":
             return (lambda a, b: torch.equal(a, b)), [q, p], X, 0, None
         if name == "copy_into_q":
-            return (lambda a, b: a.copy_(b)), [q, p], ("step" if ev[1] == "plain" else X), 0, None
+            return (lambda a, b: a.copy_(b)), [q, p], ("step" if ev[1] == "plain" else ("cast" if ev[1] == "otherdtype" else X)), 0, None
     if name == "alias_copy":
         p = partner(q, ev[2])
         if p is None:
@@ -514,6 +535,17 @@ def build_call(q, ev):
     if name == "div":
         c = _scalar(ev[1], dt)
         return (lambda t: t / c), [q], "round", 0, None
+    if name in ("idiv", "imul"):
+        c = float(ev[1])
+
+        def inplace(t):
+            if name == "idiv":
+                t /= c
+            else:
+                t *= c
+            return t  # python rebinding semantics: the result of the augmented assignment
+
+        return inplace, [q], "round", 0, None
     if name == "neg":
         return (lambda t: -t), [q], X, 0, None
     if name == "relu":
